@@ -57,7 +57,8 @@ int main(int argc, char** argv) {
   if (argc < 2) {
     struct stat st;
     if (fstat(1, &st) == 0 && S_ISFIFO(st.st_mode)) { std::string r = report(argc, argv); r += "I -1 0\nD 0\n"; writeAll(1, r.data(), r.size()); }
-    _exit(77);
+    // a child that was started without even its own name in the argument vector says so (the vector a process gets starts with the executable)
+    _exit((argc < 1 || !argv[0] || !*argv[0]) ? 78 : 77);
   }
   long code = 0, rd = 0, no = 0, ne = 0, eo = 0, ee = 0, errFirst = 0, hang = 0, waitMs = 0;
   if (argc >= 3) {
